@@ -377,6 +377,8 @@ class Evaluator(object):
                 if val is not None:
                     if val[0] == 'call' and val[1] == ctor and i < len(val[2]):
                         sub = val[2][i]
+                    elif val[0] == 'call' and val[1].startswith('narrow::') and ctor == 'Ok' and i == 0:
+                        sub = ('cast', val[2][0], val[1][len('narrow::'):])
                     else:
                         sub = ('field', val, '%s.%d' % (ctor.split('::')[-1], i))
                 self.bind_pat(sp, sub, env)
@@ -603,7 +605,10 @@ class Evaluator(object):
             if node.get('mut') and inner.get('k') == 'Local' and not inner.get('ty', '').startswith('&'):
                 # `&mut local` handed out: the callee may overwrite the value; later reads are opaque
                 v = self.eval(inner, env, guards, fn, chain)
-                env[inner['id']] = ('var', self.names.get(inner['id'], inner['name']), inner['id'])
+                if v is not None and v[0] == 'var':
+                    env[inner['id']] = v  # already opaque: keeps its name (local ids repeat across functions, `names` is shared)
+                else:
+                    env[inner['id']] = ('var', self.mutated.get(inner['id']) or inner['name'], inner['id'])
                 return v
             return self.eval(inner, env, guards, fn, chain)
         if k == 'Unary' and node.get('op') == 'Deref':
@@ -854,7 +859,7 @@ class Evaluator(object):
             if fl is not None:
                 pat, it, body = fl
                 itt = self.eval(it, env, guards, fn, chain)
-                itt, item = iter_view(itt)
+                itt, item = iter_view(itt, it)
                 benv = dict(env)
                 self.bind_pat(pat, item, benv)
                 g = guards + [Guard((node['sp'], 'for', 'loop', show(itt), itt))]
@@ -1115,6 +1120,15 @@ class Evaluator(object):
         args = tuple(self.eval(a, env, guards, fn, chain) for a in args_nodes)
         if (is_erased_call(ndecl) or is_erased_call(npath)) and len(args) == 1:
             return args[0]
+        if ndecl.endswith('TryFrom::try_from') and len(args) == 1 and len(args_nodes) == 1:
+            src = (args_nodes[0].get('ty') or '').lstrip('&').strip()
+            mres = re.match(r'^std::result::Result<(\w+), ', norm_path(node.get('ty') or '')) or re.match(r'^(?:core|std)::result::Result<(\w+), ', node.get('ty') or '')
+            dst = mres.group(1) if mres else None
+            if src in _UW and dst in _UW:
+                if _UW[src] <= _UW[dst]:
+                    return ('call', 'Ok', (args[0],), ())  # cannot fail: the value itself
+                # a checked narrowing: Ok((x as uN)) iff x <= uN::MAX -- conditions on it are rendered as that comparison (canon.cmp_conds)
+                return ('call', 'narrow::' + dst, (args[0],), ())
         if ndecl == 'std::string::String::new' and not args:
             return ('lit', '""')
         if npath == 'std::result::Result::and' and len(args) == 2 and args[1] is not None and args[1][0] == 'call' and args[1][1] == 'Ok':
@@ -1400,8 +1414,19 @@ def cond_value(c, a, b):
     return ('ctl', 'if %s {%s} else {%s}' % (cs, show(a), show(b)))
 
 
-def iter_view(itt):
-    """(iterator term, item term): HashMap::keys(m) / values(m) are read as iter(m) with the item projected."""
+def iter_view(itt, it_node=None):
+    """(iterator term, item term): HashMap::keys(m) / values(m) are read as iter(m) with the item projected;
+    `for x in &c` / `for x in &mut c` are read as `for x in c.iter()` / `c.iter_mut()`."""
+    n = it_node
+    while isinstance(n, dict) and n.get('k') in ('DropTemps', 'Paren'):
+        n = n.get('e')
+    if isinstance(n, dict) and n.get('k') == 'AddrOf' and itt is not None and not (itt[0] == 'call' and itt[1].split('::')[-1] in ('iter', 'iter_mut', 'keys', 'values', 'drain')):
+        import canon
+        ty = norm_path(canon.strip_ty((n.get('e') or {}).get('ty') or ''))
+        if ty.startswith(('std::vec::Vec', '[')) or ty == '':
+            ty = 'std::slice' if ty else ''
+        if ty and not (n.get('e') or {}).get('ty', '').startswith('&'):
+            itt = ('call', ty + ('::iter_mut' if n.get('mut') else '::iter'), (itt,), ())
     if itt is not None and itt[0] == 'call' and itt[1] in ('std::collections::HashMap::keys', 'std::collections::HashMap::values') and len(itt[2]) == 1:
         base = ('call', 'std::collections::HashMap::iter', itt[2], ())
         return base, ('field', ('call', 'iter_item', (base,), ()), '0' if itt[1].endswith('keys') else '1')
